@@ -6,7 +6,8 @@ CONSTANT Scenario
 
 MCKeys == {"#s", "@t", "n"}
 MCVals == {"x", "y"}
-MCIDOrder == <<"P0", "P1", "P2", "P3", "W1", "W2", "A1", "R1", "C1">>
+MCIDOrder == IF Scenario = 3 THEN <<"P0", "P1", "P2", "P3", "W1", "W2", "A1", "A2", "A3", "R1">>
+             ELSE <<"P0", "P1", "P2", "P3", "W1", "W2", "A1", "R1", "C1">>
 T(s, t, n) == [k \in MCKeys |-> IF k = "#s" THEN s ELSE IF k = "@t" THEN t ELSE n]
 NT == T("-", "-", "-")
 
@@ -52,8 +53,17 @@ Upper2 == [ P0 |-> {Absent, Pt(0, T("y", "-", "x")), Pt(4, T("x", "x", "-"))},
             R1 |-> {Absent, Re(<<"P0">>, T("x", "-", "y"))},
             C1 |-> {Absent, Co(<<"P0">>, T("x", "-", "-"))} ]
 
-MCAlternatives == IF Scenario = 1 THEN Alt1 ELSE Alt2
-MCUppers == IF Scenario = 1 THEN NoUpper ELSE Upper2
+\* scenario 3: several areas over shared paths (sources are also fed to the builders in reverse ID order, so that
+\* areas arrive before their paths and wait in the validator's queue)
+Alt3 == [ P0 |-> {Pt(0, NT)}, P1 |-> {Pt(1, T("x", "-", "-"))}, P2 |-> {Pt(2, NT)}, P3 |-> {Pt(3, NT)},
+          W1 |-> {Pa(<<"P0", "P1", "P2", "P0">>, NT)},
+          W2 |-> {Absent, Pa(<<"P1", "P2", "P3", "P1">>, T("-", "-", "y")), Pa(<<"P1", "P3">>, NT)},
+          A1 |-> {Ar(<< <<"W1">> >>, T("y", "-", "-"))},
+          A2 |-> {Absent, Ar(<< <<"W1">> >>, T("-", "x", "-")), Ar(<< <<"W2">> >>, T("x", "-", "-"))},
+          A3 |-> {Absent, Ar(<< <<"W2">> >>, T("-", "-", "x")), Ar(<< <<"W1">>, <<"W2">> >>, T("y", "x", "-"))},
+          R1 |-> {Absent, Re(<<"A2", "A1", "P1">>, T("-", "x", "-"))} ]
+MCAlternatives == IF Scenario = 1 THEN Alt1 ELSE IF Scenario = 3 THEN Alt3 ELSE Alt2
+MCUppers == IF Scenario = 2 THEN Upper2 ELSE NoUpper
 
 Tg(k, v) == [k |-> "tagged", key |-> k, val |-> v]
 Ky(k) == [k |-> "keyed", key |-> k]
